@@ -86,6 +86,12 @@ UnsafeClasses(p, d, new) ==
 \* what a check of the declaring scope alone would conclude (NOT what the property allows)
 DeclaringScopeOnly(p, d, new) == ~Clash(p, d, new)
 
+\* the outcomes of one request (composition of the phases below): refusing is always
+\* possible; applying only for a resolvable occurrence, a valid name and a safe rename, and
+\* then the edits are exactly the occurrences of the symbol
+CanApply(p, o, new, cls) ==
+  LET t == TargetOf(p, o) IN t # 0 /\ cls = "name" /\ Safe(p, DeclById(p, t), new)
+
 \* ------------------------------------------------------------------ the rename machine
 VARIABLES proj,     \* the project text (abstractly)
           orig,     \* the project before the rename in progress
@@ -140,6 +146,7 @@ Phases == ResolveTarget \/ Validate \/ ConflictCheck \/ Collect \/ Apply \/ Rena
 AppliedPreservesBinding == pc = "applied" => Preserved(orig, proj)
 EditsAreTheOccurrences  == pc \in {"collected", "applied"} => edits = OccsOf(orig, target)
 OnlyValidNamesApplied   == pc = "applied" => req.cls = "name"
+AppliedOnlyWhenAllowed  == pc = "applied" => CanApply(orig, req.occ, req.new, req.cls)
 BackIsAdmissible        == pc = "applied" => Safe(proj, DeclById(proj, target), DeclById(orig, target).name)
 BackRestores            == pc = "idle" => proj = orig
 RefusalChangesNothing   == pc = "refused" => proj = orig
